@@ -9,7 +9,7 @@ if [ -n "$(git status --porcelain)" ]; then echo "repo not clean"; exit 2; fi
 git apply --check "$seed/patch.diff" || { echo "patch does not apply"; exit 2; }
 git apply "$seed/patch.diff"
 trap 'git -C /repo checkout -- . ; git -C /repo clean -fdq' EXIT
-"$here/baseline.sh" | tail -1
+[ -n "${SEEDTEST_NO_BASELINE:-}" ] || "$here/baseline.sh" | tail -1
 for id in "$@"; do
   out=$(VERIF_EVIDENCE_DIR=/tmp/seed-evidence VERIF_BIN_SUFFIX=.seed "$here/check" "$id" quick 2>&1); rc=$?
   if [ $rc -eq 1 ] && echo "$out" | grep -q "^VIOLATION property=$id"; then echo "$id DETECTED (exit 1): $(echo "$out" | grep -A1 '^VIOLATION' | sed -n 2p | cut -c1-260)"
